@@ -403,6 +403,7 @@ func C03(c *Ctx) {
 			c.behindEdges("R03.5", "verifyMultiSign", ms, found, isInc, "validator found in the trust-root set", "signature counter increment")
 			// delete(m, val) before the increment
 			okDel := true
+			keyMismatch := false
 			for _, inc := range incs {
 				rs := core.Reach([]core.Point{core.EntryOf(ms)}, func(in ssa.Instruction) bool {
 					cc, ok := in.(ssa.CallInstruction)
@@ -410,7 +411,18 @@ func C03(c *Ctx) {
 						return false
 					}
 					bn, ok := cc.Common().Value.(*ssa.Builtin)
-					return ok && bn.Name() == "delete"
+					if !ok || bn.Name() != "delete" || len(cc.Common().Args) != 2 {
+						return false
+					}
+					// the entry removed is the entry that was found: same set, and the key is the expression the
+					// membership lookup used (a set keyed by a normalised form must be emptied under that form)
+					for _, lk := range lookups {
+						if sameValue(cc.Common().Args[0], lk.X) && sameExpr(cc.Common().Args[1], lk.Index, 0) {
+							return true
+						}
+					}
+					keyMismatch = true
+					return false
 				}, func(b *ssa.BasicBlock, si int) bool {
 					// only consider paths inside one loop iteration: cut back edges into the loop head
 					return strings.HasSuffix(b.Succs[si].Comment, ".loop") && b != ms.Blocks[0] && b.Succs[si].Dominates(b)
@@ -419,7 +431,7 @@ func C03(c *Ctx) {
 					okDel = false
 				}
 			}
-			r.Check(okDel, "R03.5", "verifyMultiSign: matched validator removed before counting", c.P.Pos(incs[0].Pos()), "delete(set, validator) precedes the increment in every iteration", "a validator can be counted twice: the matched address is not removed from the candidate set before the counter is incremented")
+			r.Check(okDel, "R03.5", "verifyMultiSign: matched validator removed before counting", c.P.Pos(incs[0].Pos()), "delete(set, validator) precedes the increment in every iteration", "a validator can be counted twice: the matched address is not removed from the candidate set before the counter is incremented"+map[bool]string{true: " (a delete is there, but not on the set / under the key expression of the membership lookup: it removes nothing when the two spellings differ)", false: ""}[keyMismatch])
 		}
 		okThr := false
 		if gt != nil {
